@@ -6,6 +6,7 @@ scratch copy (VF_INNER: no evidence written).  Prints one line per mutant with t
 import os, re, random, shutil, subprocess, sys, tempfile
 rel, prop = sys.argv[1], sys.argv[2]
 n = int(sys.argv[3]) if len(sys.argv) > 3 else 8
+seed = int(sys.argv[4]) if len(sys.argv) > 4 else 7
 V = os.path.dirname(os.path.dirname(os.path.abspath(__file__)))
 src = open('/repo/gmlc/' + rel).read().split('\n')
 KEY = re.compile(r'lock|unlock|\.store\(|notify|erase|push_back|emplace|set_value|clear\(\)|\+\+|--|std::move|swap|\.load\(|wait|= ')
@@ -14,12 +15,14 @@ for i, ln in enumerate(src):
     t = ln.strip()
     if not t or t.startswith('//') or t.startswith('*') or t.startswith('#') or t.startswith('/*'):
         continue
+    if '= delete' in t or '= default' in t or re.match(r'^[\w:<>,&\*\s~]+\([^)]*\)\s*(const)?\s*(noexcept)?\s*;$', t) and not re.search(r'[=.]|->', t):
+        continue          # declarations: deleting them only breaks the build
     if re.match(r'^(if|while)\s*\(.*\)\s*\{?$', t) and KEY.search(t):
         cands.append((i, 'negate'))
     elif t.endswith(';') and KEY.search(t) and not re.match(r'^(return|using|typedef|template|class|struct|friend|static_assert|throw|break|continue)\b', t) \
             and '(' in t and not re.match(r'^[\w:<>,\s\*&]+\s+\w+\s*(\{[^}]*\})?;$', t) and not re.match(r'^(std::|typename|const|auto|bool|int|T\b|size_t)', t):
         cands.append((i, 'delete'))
-random.seed(7)
+random.seed(seed)
 random.shuffle(cands)
 for i, kind in cands[:n]:
     tmp = tempfile.mkdtemp(prefix='vf_mut_')
